@@ -1,6 +1,7 @@
 package main
 
 import (
+	"crypto/rand"
 	"os"
 	"path/filepath"
 	"reflect"
@@ -184,7 +185,7 @@ func genC20(tier string, seed uint64, emit func(string)) {
 	// 7. random single-byte substitutions of a valid envelope's structural bytes
 	n := 600
 	if tier == "thorough" {
-		n = 40000
+		n = 25000
 	}
 	for i := 0; i < n; i++ {
 		g := envelope(prot, unprot, pl(i), sig)
@@ -202,7 +203,7 @@ func genC02(tier string, seed uint64, emit func(string)) {
 	r := &rng{s: seed}
 	nsets := 1
 	if tier == "thorough" {
-		nsets = 6
+		nsets = 4
 	}
 	type signed struct {
 		k   int
@@ -280,6 +281,31 @@ func genC02(tier string, seed uint64, emit func(string)) {
 				q[0] = append(cHeadWide(2, uint64(len(content)), 1), content...) // same content, wider bstr head
 				if len(content) < 24 {
 					tamp(t, t.k, joinSign1(q))
+				}
+			}
+			// the algorithm moved out of the protected header: protected empty (h'' / h'a0'), unprotected {1: alg} (with or
+			// without a kid), and a signature that IS valid over the resulting Sig_structure -- verification must still fail,
+			// because the algorithm is not covered by the signature
+			if content := bstrContent(pa[0]); len(content) >= 3 && content[0] == 0xa1 && content[1] == 0x01 {
+				algEnc := content[2:]
+				payload := bstrContent(pa[2])
+				for _, prot := range [][]byte{{}, {0xa0}} {
+					tbs := append([]byte{0x84, 0x6a}, []byte("Signature1")...)
+					tbs = append(tbs, cborBstr(prot)...)
+					tbs = append(tbs, 0x40)
+					tbs = append(tbs, cborBstr(payload)...)
+					sig, err := mkSigner("g"+strconv.Itoa(t.k)).Sign(rand.Reader, tbs)
+					if err != nil {
+						panic(err)
+					}
+					for _, unprot := range [][]byte{append([]byte{0xa1, 0x01}, algEnc...), append(append([]byte{0xa2, 0x01}, algEnc...), 0x04, 0x41, 0x01)} {
+						q := pa
+						q[0] = cborBstr(prot)
+						q[1] = unprot
+						q[3] = cborBstr(sig)
+						tamp(t, t.k, joinSign1(q))
+						tamp(t, 1+t.k%5, joinSign1(q))
+					}
 				}
 			}
 			// signature replaced by arbitrary bytes, emptied; payload / protected emptied or nil
